@@ -24,6 +24,8 @@
 
 #ifdef VERIF_WRAP_ALLOC
 #include "alloc.h"
+#else
+#define VERIF_UNTRACKED(stmt) do { stmt; } while (0)
 #endif
 
 static int hexval(int c) {
